@@ -1,5 +1,7 @@
 mod common;
 mod engines;
+mod evmfix;
+mod evmref;
 mod simvm;
 mod world;
 
@@ -64,6 +66,7 @@ fn real_main() -> i32 {
         "C06" => run_engine(&engines::market::engines::C06, &opts),
         "C07" => run_engine(&engines::market::engines::C07, &opts),
         "C08" => run_engine(&engines::market::engines::C08, &opts),
+        "C17" => run_engine(&engines::c17_evm_diff::C17, &opts),
         "C16" => run_engine(&engines::c16_paych::C16, &opts),
         _ => {
             eprintln!("unknown property {id}");
